@@ -107,6 +107,25 @@ def random_edit(rng, text):
     return cs, max(cs, ce), ins
 
 
+EXTENSIONS = [(r"/(?![/])", "/"), (r"<(?![=])", "="), (r">(?![=])", "="), (r":(?![=])", "="), (r"(?<![0-9A-Za-z_])0(?![0-9A-Za-z_])", "x1F"),
+              (r"[A-Za-z_][A-Za-z_0-9]*", "_x"), (r"[0-9]+", "7"), (r"'", "'")]
+
+
+def extend_token_edit(rng, text):
+    """types the character(s) that turn a token into a longer / different one directly behind it (`/` -> `//`, `<` -> `<=`,
+    `:` -> `:=`, `0` -> `0x1F`, an identifier or number continued, a tick): the incremental lexer must notice that the OLD token
+    in front of the insertion is affected"""
+    order = list(EXTENSIONS)
+    rng.shuffle(order)
+    for pat, ins in order:
+        hits = [m for m in re.finditer(pat, text)]
+        if hits:
+            m = rng.choice(hits)
+            offs = editgen.byte_offsets(text)
+            return offs[m.end()], offs[m.end()], ins
+    return None
+
+
 def append_decl(rng, text):
     offs = editgen.byte_offsets(text)
     return offs[len(text)], offs[len(text)], rng.choice(["\n// appended\nproc extra_p() { }\n", "\ntype extra_t = int;\n", "\n// tail\n"])
@@ -124,9 +143,10 @@ def gen_histories(rng, n):
         for _ in range(rng.choice([1, 1, 2, 3])):
             chs = []
             for _ in range(rng.choice([1, 1, 2])):
-                kind = rng.choice(["comment", "comment", "neutral", "append", "blank", "blank", "random", "random"])
+                kind = rng.choice(["comment", "comment", "neutral", "append", "blank", "blank", "random", "random", "extend", "extend"])
                 e = (comment_edit(rng, cur) if kind == "comment" else c03hist.neutral(rng, cur) if kind == "neutral"
-                     else blank_replace(rng, cur) if kind == "blank" else random_edit(rng, cur) if kind == "random" else append_decl(rng, cur))
+                     else blank_replace(rng, cur) if kind == "blank" else random_edit(rng, cur) if kind == "random"
+                     else extend_token_edit(rng, cur) if kind == "extend" else append_decl(rng, cur))
                 if e is None:
                     continue
                 shape.append(kind)
